@@ -370,12 +370,14 @@ func init() {
 		nCuts, nFaults := 0, 0
 		// (1) every cut offset: exactly the completely transferred items, then an EOF-class error
 		for _, cut := range offsets(f, c.Tier) {
-			for _, seg := range []string{"whole", "one"} {
+			for _, seg := range []string{"whole", "one", "whole+eof"} {
 				if seg == "one" && len(f.wire) > 6000 && cut%7 != 0 {
 					continue
 				}
 				s := transport.NewStream()
 				s.Seg = transport.SegmenterByName(seg, 1)
+				// a transport may return its last bytes together with io.EOF
+				s.EOFWithData = seg == "whole+eof"
 				s.Write(f.wire)
 				s.CutAt(cut)
 				got, err, bad := f.read(s)
